@@ -188,3 +188,41 @@ def c12_9(ctx, r):
     from .c06 import c06_5
 
     c06_5(ctx, r)
+
+
+@rule(P, "C12.10", "T13", "the results sweep has no content-dependent refusal: a damaged node file cannot wedge every later round", min_obligations=4)
+def c12_10(ctx, r):
+    """Every submitter round runs the same sweep over the same node files, and completion (normal or forced) is only decided after it.  An
+    explicit `raise` in the sweep that depends on what a file contains (a header check, a row-count check) fires again in every later round -
+    the file is still there - so no round ever reaches the completion decision.  What a killed node leaves behind (an empty file, a file with
+    only a header) must be read as 'no rows'.  Decided: the functions the sweep runs (ResultsAggregator.process_results and what it calls
+    inside the class) contain no raise statement other than the re-raise of the lock timeout, and no assert on file content."""
+    cls = ctx.cls("ResultsAggregator", "C12.10")
+    start = ctx.fn("ResultsAggregator.process_results", "C12.10")
+    seen, todo = set(), [start]
+    while todo:
+        f = todo.pop()
+        if f.qual in seen:
+            continue
+        seen.add(f.qual)
+        for s in ctx.cg.sites_in(f):
+            for q in s.targets():
+                g = ctx.ix.functions.get(q)
+                if g is not None and g.cls is not None and g.cls.name in ("ResultsAggregator",) and g.qual not in seen:
+                    todo.append(g)
+        for q in [m.qual for m in cls.methods.values() if any(isinstance(a, ast.Attribute) and a.attr == m.name and isinstance(a.ctx, ast.Load) for a in ast.walk(f.node))]:
+            if q not in seen:
+                todo.append(ctx.ix.functions[q])
+    if len(seen) < 4:
+        raise AnalysisError("C12.10", f"the sweep reaches only {sorted(seen)}")
+    for q in sorted(seen):
+        f = ctx.ix.functions[q]
+        bad = []
+        for n in iter_own(f.node):
+            if isinstance(n, ast.Raise) and n.exc is not None:
+                bad.append(n)
+            if isinstance(n, ast.Assert) and any(isinstance(x, ast.Name) and x.id not in f.params for x in ast.walk(n.test)):
+                bad.append(n)
+        r.check(not bad, f"{f.short} has no content-dependent refusal", key_of(f, "refusal in the sweep: " + (ctx.src(bad[0]).split("(")[0] if bad else "")), f.loc(bad[0]) if bad else f.loc(f.node),
+                f"`{ctx.src(bad[0])[:120] if bad else ''}` in {f.short}: the sweep every round starts with can now refuse a file; the file stays, so every later round stops at the same point and the submission "
+                "never reaches completion, forced or not", "reaches completion ... regardless of lost batches")
